@@ -597,7 +597,6 @@ func (r *Run) checkCodecPair(rule string, writers, readers []*ssa.Function, what
 		"the components of "+what+" are encoded and decoded by functions that are not inverses of each other: "+why+" — "+consequence)
 }
 
-
 // checkEncodedEverywhere: when the writer applies a library encoder at all, every Sprintf of
 // the writer whose format holds the separator of the encoded component takes a value that went
 // through the encoder (directly or through a helper of the module that calls it).
